@@ -56,7 +56,7 @@ CORE_SAME = [["float", "dc", "double"], ["short", "int", "long", "float", "doubl
 
 def choose_decls(tier, rng, split_recs):
     quick = tier == "quick"
-    n_one, n_two, n_same, n_hz = (26, 10, 5, 4) if quick else (170, 70, 40, 30)
+    n_one, n_two, n_same, n_hz = (26, 10, 5, 4) if quick else (120, 50, 25, 20)
     decls = [{"mode": "one", "f1": f, "f2": []} for f in CORE_ONE]
     decls += [{"mode": "two", "f1": f, "f2": g} for f, g in CORE_TWO]
     decls += [{"mode": "same", "f1": f, "f2": []} for f in CORE_SAME]
@@ -180,7 +180,7 @@ def run(tier, seed):
     work = core.subdir("c34")
 
     # ---- B3 facts: the real _split_fused_types over the whole declaration space of the sweep
-    space = L.seqs(L.UALL, 2) + [s for s in L.seqs(L.UNUMQ if quick else L.UALL, 3) if len(s) == 3]
+    space = L.seqs(L.UALL, 2) + [s for s in L.seqs(L.UNUMQ if quick else L.UTHOR3, 3) if len(s) == 3]
     declf, factf = os.path.join(work, "split_decls.json"), os.path.join(work, "split_facts.json")
     with open(declf, "w") as f:
         json.dump(space, f)
@@ -196,15 +196,17 @@ def run(tier, seed):
     inf = os.path.join(work, "split_in.ndjson")
     core.write_ndjson(inf, [{"flags": flags}])
 
+    tmo = 1700 if quick else 9000
     ex = concurrent.futures.ThreadPoolExecutor(max_workers=6)
     futs = {}
     futs["split"] = ex.submit(core.tlc, "Fused", cfg="Fused_split_q" if quick else "Fused_split", workers=4,
-                              env={"C34_IN": inf}, timeout=1700)
-    futs["one"] = ex.submit(core.tlc, "Fused", cfg="Fused_one_q" if quick else "Fused_one", workers=4 if quick else 8, timeout=1700)
-    futs["multi"] = ex.submit(core.tlc, "Fused", cfg="Fused_multi_q" if quick else "Fused_multi", workers=4 if quick else 8, timeout=1700)
+                              env={"C34_IN": inf}, timeout=tmo)
+    futs["one"] = ex.submit(core.tlc, "Fused", cfg="Fused_one_q" if quick else "Fused_one", workers=4 if quick else 8, timeout=tmo)
+    futs["multi"] = ex.submit(core.tlc, "Fused", cfg="Fused_multi_q" if quick else "Fused_multi", workers=4 if quick else 8, timeout=tmo)
     if not quick:
-        futs["one4"] = ex.submit(core.tlc, "Fused", cfg="Fused_one4", workers=4, timeout=1700)
-    futs["strict"] = ex.submit(core.tlc, "Fused", cfg="Fused_strict", workers=2, timeout=900)
+        futs["one4"] = ex.submit(core.tlc, "Fused", cfg="Fused_one4", workers=4, timeout=tmo)
+        # the hazard classes must be inhabited: the strict invariant has to fail (quick tier: the replay part shows it)
+        futs["strict"] = ex.submit(core.tlc, "Fused", cfg="Fused_strict", workers=2, timeout=tmo)
 
     sp = futs["split"].result()
     cov["tlc"].append(dict(sp.summary(), config="split"))
@@ -251,7 +253,7 @@ def run(tier, seed):
     rin = os.path.join(work, "replay_in.ndjson")
     core.write_ndjson(rin, [{"flags": flags}] + [{"mode": d["mode"], "f1": d["f1"], "f2": d["f2"]} for d in decls])
     futs["replay"] = ex.submit(core.tlc, "Fused", cfg="Fused_replay" if quick else "Fused_replay_t", workers=4, env={"C34_IN": rin},
-                               timeout=1700)
+                               timeout=tmo)
     idx = list(enumerate(decls, 1))
     bufd = [(i, d) for i, d in idx if L.decl_has_buf(d)]
     scad = [(i, d) for i, d in idx if not L.decl_has_buf(d)]
@@ -342,7 +344,7 @@ def run(tier, seed):
 
     n_eval = n_ok = n_known = 0
     agree_ret = []
-    samples = []
+    sample_pool = []
     nontrivial = set()
 
     def run_mod(mod):
@@ -375,8 +377,8 @@ def run(tier, seed):
                     nontrivial.add(key)
                 if r["want"][0]["k"] == "ret" and not r["hz"] and len(r["want"]) == 1:
                     agree_ret.append((r, cobs, pvals))
-                if len(samples) < 4 and rng.random() < 0.002:
-                    samples.append({"decl": d, "op": r["op"], "key": r["key"], "args": r["args"], "form": form, "want": r["want"], "got": o})
+                if r["want"][0]["k"] != "any":
+                    sample_pool.append({"decl": d, "op": r["op"], "key": r["key"], "args": r["args"], "form": form, "want": r["want"], "got": o})
                 continue
             nontrivial.add(key)
             models = [r["impl"]] + list(r.get("alts") or [])
@@ -433,7 +435,8 @@ def run(tier, seed):
         elif not t.ok:
             core.die("TLC Fused %s: %s\n%s" % (name, t.violation, t.out[-3000:]))
     ex.shutdown()
-    need = [("call", "ret"), ("call", "TypeError"), ("call", "OverflowError"), ("index", "KeyError"), ("index", "ret"), ("call", "any")]
+    need = [("call", "ret"), ("call", "TypeError"), ("call", "OverflowError"), ("index", "KeyError"), ("index", "ret"), ("call", "any"),
+            ("call", "hazard:sort"), ("call", "hazard:bool"), ("call", "hazard:wild")]
     if built and any(classes.get(k, 0) == 0 for k in need):
         core.die("vacuous replay: case classes %s" % {("%s/%s" % k): v for k, v in classes.items()})
     if model_mismatch and rep.n_violations() == 0:
@@ -455,8 +458,8 @@ def run(tier, seed):
         "rule": "model: every ordered declaration (<=2 members over 18 types, 3 members over %s) x argument kind, 2-parameter and "
                 "indexing cases over a smaller universe; code: _split_fused_types on every declaration of the sweep; compiled: core + "
                 "seeded declarations x all argument kinds x call forms; non-trivial = distinct (declaration, operation, key, "
-                "arguments, form) with a demand (not 'any') + declarations whose real split meets every demand" % ("11 scalar types" if quick else "all 18"),
-        "samples": samples or [{"note": "no sample drawn"}],
+                "arguments, form) with a demand (not 'any') + declarations whose real split meets every demand" % ("11 scalar types" if quick else "15 types"),
+        "samples": rng.sample(sample_pool, min(4, len(sample_pool))) or [{"note": "no module could be built"}],
     })
     rc = rep.finish()
     cov["known_findings"] = rep.kf_summary()
